@@ -49,8 +49,11 @@ CONSTANTS WriteSizes,   \* sizes of application writes
           MaxLen,       \* bound on the history
           AdvBudget,    \* number of non-Deliver adversary steps
           AdvActs,      \* adversary step kinds enabled
+          AdvAfter,     \* the adversary stays passive for the first AdvAfter steps (steers simulation past the handshake)
           EphChoices,   \* substituted ephemeral keys: subset of {"adv","reflect","unknown","low"}
-          DataMax       \* payload bytes per frame (1024 in the code)
+          DataMax,      \* payload bytes per frame (1024 in the code)
+          Writers,      \* endpoints whose application writes / reads in this configuration
+          Readers
 
 E == {"a", "b"}
 Peer(e) == IF e = "a" THEN "b" ELSE "a"
@@ -112,7 +115,7 @@ Init ==
 \* what the driver can read from the real objects after a step
 Proj(p, k, o) == [ph |-> p, rpk |-> k, nout |-> [e \in E |-> Len(o[e])]]
 Log(rec) == hist' = Append(hist, rec)
-Spend(act) == /\ act \in AdvActs /\ used < AdvBudget /\ used' = used + 1
+Spend(act) == /\ act \in AdvActs /\ used < AdvBudget /\ Len(hist) >= AdvAfter /\ used' = used + 1
 
 \* --- endpoint reactions ----------------------------------------------------------------------
 \* e, blocked in shareEphPubKey, receives ephemeral key x: low-order points are refused, otherwise
@@ -230,7 +233,7 @@ AdvAuth(dst, m) ==
 \* --- application ------------------------------------------------------------------------------
 NFrames(n) == (n + DataMax - 1) \div DataMax
 Write(e, n) ==
-  /\ Len(hist) < MaxLen /\ ph[e] = "open" /\ nw[e] < MaxWrites /\ n \in WriteSizes
+  /\ Len(hist) < MaxLen /\ e \in Writers /\ ph[e] = "open" /\ nw[e] < MaxWrites /\ n \in WriteSizes
   /\ LET c == NFrames(n)
          fs == [i \in 1..c |-> Frame(SendKey(e), sn[e] + i - 1, "data", "", "", <<0, 0>>,
                                       wr[e] + (i - 1) * DataMax, Min(DataMax, n - (i - 1) * DataMax))]
@@ -254,7 +257,7 @@ RdLoop(e, q, n, ac, r, got, k, b) ==
             ELSE [q |-> Tail(q), rn |-> n, acc |-> ac, rd |-> r, got |-> got, res |-> "err", bad |-> b]
 
 Read(e, k, bs) ==
-  /\ Len(hist) < MaxLen /\ ph[e] = "open" /\ nr[e] < MaxReads /\ k \in ReadSizes /\ bs \in BufSizes
+  /\ Len(hist) < MaxLen /\ e \in Readers /\ ph[e] = "open" /\ nr[e] < MaxReads /\ k \in ReadSizes /\ bs \in BufSizes
   /\ LET x == RdLoop(e, inb[e], rn[e], acc[e], rd[e], 0, k, bad) IN
      /\ inb' = [inb EXCEPT ![e] = x.q]
      /\ rn' = [rn EXCEPT ![e] = x.rn]
@@ -300,6 +303,7 @@ TypeOK == /\ \A e \in E : ph[e] \in {"eph", "auth", "open", "failed"}
           /\ used \in 0..AdvBudget
 
 Emit == PrintT(<<"TRACE", ToJson(hist)>>)
-EmitAtEnd == Len(hist) < MaxLen \/ Emit
+\* simulation: a behaviour is emitted when it is complete (history full, or nothing left to do)
+EmitAtEnd == (Len(hist) < MaxLen /\ ENABLED Next) \/ Emit
 EmitEdge == PrintT(<<"EDGE", ToJson(hist')>>)
 =============================================================================
